@@ -578,9 +578,7 @@ class SpecEvalMixin:
                     return hk(self, st, v).t
                 m = self.reg.models.get(v.cls)
                 if m is not None and getattr(m, "open_attrs", False):
-                    self.decls.fun("gen_hasattr", [INT, STR], BOOL)
-                    from .smt import app as _app
-                    return _app("gen_hasattr", BOOL, v.t, self.decls.str_lit(attr))
+                    return self.open_read(st, v.t, self.decls.str_lit(attr))[0]
                 raise Unsupported(f"hasattr({v.cls}, {attr!r}): attribute not in model")
             if not d[2]:
                 return TRUE
